@@ -31,6 +31,9 @@ pub const MODES: &[&[&str]] = &[
     &["--keep-plus-minus-markers", "--hunk-header-style", "file line-number syntax", "--relative-paths"],
 ];
 
+/// mode numbers from here on: options drawn from the seeded swarm instead of MODES
+pub const SWARM: usize = 1000;
+
 #[derive(Clone, Debug, Serialize, Deserialize)]
 pub struct Case {
     pub args: Vec<String>,
@@ -70,10 +73,15 @@ pub fn gen_case_full(seed: u64, idx: usize, kinds: &[SectionKind], mode: usize, 
         sections.push(s);
     }
     let mut args: Vec<String> = vec!["--no-gitconfig".into(), "--width".into(), "120".into()];
-    for a in MODES[mode % MODES.len()] {
-        args.push((*a).into());
+    if mode >= SWARM {
+        // option swarm: the same seeded option sets the streaming check (C11) draws
+        args = gen::random_delta_opts(&mut rng).args;
+    } else {
+        for a in MODES[mode % MODES.len()] {
+            args.push((*a).into());
+        }
     }
-    if names.is_empty() && rng.chance(1, 2) {
+    if names.is_empty() && mode < SWARM && rng.chance(1, 2) {
         args.push("--syntax-theme".into());
         args.push("none".into());
     }
@@ -220,6 +228,20 @@ pub fn main_c10(tier: &str, seed: u64, replay: Option<&str>) -> i32 {
             specs.push(((0..n).map(|_| *rng.pick(ALL_SECTION_KINDS)).collect(), rng.range(0, MODES.len() - 1)));
         }
     }
+    // option swarm: every ordered pair of kinds under sampled option sets (quick: 4 per pair), and
+    // longer sequences
+    let per_pair = if tier == "thorough" { 60 } else { 4 };
+    for a in ALL_SECTION_KINDS {
+        for b in ALL_SECTION_KINDS {
+            for _ in 0..per_pair {
+                specs.push((vec![*a, *b], SWARM));
+            }
+        }
+    }
+    for _ in 0..(if tier == "thorough" { 60000 } else { 1500 }) {
+        let n = rng.range(3, 5);
+        specs.push(((0..n).map(|_| *rng.pick(ALL_SECTION_KINDS)).collect(), SWARM));
+    }
     // coverage floor: a section with wide line numbers followed by one with narrow ones, about the
     // same path, with line numbers shown
     let wide_start = name_cells.len();
@@ -253,7 +275,7 @@ pub fn main_c10(tier: &str, seed: u64, replay: Option<&str>) -> i32 {
         let other = on_fresh_thread(mix(seed, &[tag("C10-hashB"), i as u64]), move || render_whole(&c2));
         if let (Some(a), Some(b)) = (&whole, &other) {
             if a != b {
-                return (Some(Violation::new("R-deterministic", "det:e2:render", format!("the same sections {:?} with args {:?} rendered to different bytes under two hash-key seeds ({} vs {} bytes)", specs[i].0, MODES[specs[i].1 % MODES.len()], a.len(), b.len()))), runs + 1);
+                return (Some(Violation::new("R-deterministic", "det:e2:render", format!("the same sections {:?} with args {:?} rendered to different bytes under two hash-key seeds ({} vs {} bytes)", specs[i].0, case_of(i).args, a.len(), b.len()))), runs + 1);
             }
         }
         (None, runs + 1)
@@ -317,7 +339,8 @@ pub fn main_c10(tier: &str, seed: u64, replay: Option<&str>) -> i32 {
     ev.counters.insert("adjacent_kind_pairs_possible".into(), (ALL_SECTION_KINDS.len() * ALL_SECTION_KINDS.len()) as u64);
     ev.counters.insert("modes".into(), MODES.len() as u64);
     ev.violations = reported.len() as u64;
-    ev.samples = (0..3).map(|i| json!({"kinds": specs[i * 101 % specs.len()].0, "mode_args": MODES[specs[i * 101 % specs.len()].1]})).collect();
+    ev.samples = (0..3).map(|i| json!({"kinds": specs[i * 101 % specs.len()].0, "args": case_of(i * 101 % specs.len()).args})).collect();
+    ev.counters.insert("cases_with_sampled_option_sets".into(), specs.iter().filter(|s| s.1 >= SWARM).count() as u64);
     ev.extra.insert("engine".into(), json!("E2-inproc (delta::delta() in process)"));
     ev.wall_s = t0.elapsed().as_secs_f64();
     if let Err(e) = ev.write(&crate::evidence_path("C10")) {
